@@ -426,6 +426,10 @@ def gen(repo):
     for o, s in oarms:
         emit(f"  | Op_{o} => {coq_bytes(s)} (* {s.decode()} *)")
     emit("  end.")
+    emit("Definition operator_ident (o : operator) : bytes := match o with")
+    for o in ops:
+        emit(f"  | Op_{o} => {coq_bytes(o.encode())}")
+    emit("  end.")
     emit("Definition operator_index (o : operator) : nat := match o with")
     for i, o in enumerate(ops):
         emit(f"  | Op_{o} => {i}%nat")
@@ -502,7 +506,8 @@ def gen(repo):
     emit("Definition predefined_command_words : list bytes := [")
     emit(";\n".join(f"  {coq_bytes(rust_str(w))} (* {w} *)" for w in words))
     emit("].")
-    m = re.search(r"let volume = min\(self\.0, (\d+)\);", ds_nontest)
+    m = (re.search(r"let volume = (?:std::cmp::|cmp::)?min\(self\.0, (\d+)\);", ds_nontest)
+         or re.search(r"let volume = self\.0\.min\((\d+)\);", ds_nontest))
     if not m:
         raise TranslatorError("SetVolume: clamp not found")
     emit(f"Definition volume_max : N := {m.group(1)}.")
@@ -515,6 +520,22 @@ def gen(repo):
         if rest2:
             raise TranslatorError(f"{ty}: unexpected arms")
         emit(f"Definition {nm} : list (bytes * bytes) := [" + "; ".join(f"({coq_bytes(v.encode())}, {coq_bytes(s)})" for v, s in arms2) + "].")
+    # C15 shape pins: the renderers whose meaning CommandsModel.v hard-codes
+    dur_arg = norm(body_of(cs, r"impl Argument for Duration\s*\{", "Argument for Duration"))
+    pins["duration_argument"] = dur_arg
+    dur_ok = 'write!(buf,"{:.3}",self.as_secs_f64()).unwrap();' in dur_arg
+    emit(f"Definition pin_duration_argument : bool := {'true' if dur_ok else 'false'}.")
+    seek_body = norm(body_of(ds_nontest, r"impl Command for Seek\s*\{", "Command for Seek"))
+    pins["seek_command"] = seek_body
+    seek_ok = all(x in seek_body for x in (
+        'SeekMode::Absolute(pos)=>format!("{:.3}",pos.as_secs_f64())',
+        'SeekMode::Forward(time)=>format!("+{:.3}",time.as_secs_f64())',
+        'SeekMode::Backward(time)=>format!("-{:.3}",time.as_secs_f64())'))
+    emit(f"Definition pin_seek_format : bool := {'true' if seek_ok else 'false'}.")
+    rng_arg = norm(body_of(ds_nontest, r"impl Argument for SongRange\s*\{", "Argument for SongRange"))
+    pins["songrange_argument"] = rng_arg
+    rng_ok = 'write!(buf,"{}:{}",self.from,to).unwrap();' in rng_arg and 'write!(buf,"{}:",self.from).unwrap();' in rng_arg
+    emit(f"Definition pin_songrange_argument : bool := {'true' if rng_ok else 'false'}.")
     sat = norm(body_of(ds_nontest, r"fn new_usize<R: RangeBounds<usize>>\(range: R\) -> Self\s*\{", "SongRange::new_usize"))
     pins["songrange_new_usize"] = sat
     emit(f"Definition range_saturating : bool := {'true' if sat.count('saturating_add(1)') == 2 and 'pos+1' not in sat and 'wrapping' not in sat else 'false'}.")
